@@ -200,7 +200,11 @@ class Hist:
         the class's invariant lists) must give the verdict of the real call - for every single-false truth assignment."""
         import re
         probed, bad = 0, []
+        ours = set(id(c) for c in self.cls.values())
         for k, cls in self.cls.items():
+            # the claim concerns classes created through the inheriting metaclass, all the way up
+            if not all(isinstance(c, icontract.DBCMeta) for c in cls.__mro__ if id(c) in ours):
+                continue
             try:
                 inst = object.__new__(cls)
             except BaseException:  # noqa: B902
